@@ -225,9 +225,15 @@ def run(ctx):
     if len({c["id"] for c in cases}) != len(cases):
         raise D.Inconclusive("generator emitted duplicate case ids")
     exhaustive_cases = len(cases)
+    # constant-level laws on small exhaustive ranges: the div / floor / ceiling / truncate relations are functional
+    # (every candidate in a range is tried), long division agrees with TLC's native integers
+    D.model_check(ctx, "C08_Laws", "C08_laws.cfg", timeout=600)
     muts = MUTANTS if ctx.tier == "thorough" else [MUTANTS[(ctx.seed + k) % len(MUTANTS)] for k in range(3)]
     for m in muts:
         D.mutant_twin(ctx, "C08_MC", "C08_mut_%s.cfg" % m, m, timeout=900)
+    if ctx.tier == "thorough":
+        for m in ("divRoundsDown", "ceilIsFloorPlusOne"):
+            D.mutant_twin(ctx, "C08_Laws", "C08_laws_mut_%s.cfg" % m, "laws-" + m, timeout=600)
     if ctx.tier == "thorough":
         cases = cases + random_cases(ctx.seed, N_RANDOM)
     D.write_ndjson(ctx.path("cases.ndjson"), cases)
@@ -280,7 +286,7 @@ def run(ctx):
                              ("%d seeded random int32/decimal cases; " % N_RANDOM) if ctx.tier == "thorough" else ""),
                     nontrivial_keys=keys, samples=samples, exhaustive=True,
                     extra={"cases_exhaustive": exhaustive_cases, "cases_random": len(cases) - exhaustive_cases},
-                    assumptions=["round(precision) is not callable on the unchanged tree (Compile rejects the arity; property C16): those cases are skipped, round() is judged",
+                    assumptions=["a Compile error for round(precision) is read as 'not callable' (the arity belongs to property C16) and the case is skipped (count in skipped_not_callable); round() is always judged",
                                  "a Decimal-typed integral result is accepted for `div` on Decimal operands and either numeric kind for round (the property text fixes the value, not the kind)",
                                  "`a mod b` may also be empty when `a div b` is outside int32 (the property defines mod through div)"])
 
